@@ -70,7 +70,7 @@ PID = "C10"
 NAME = "x"
 N_TRIALS = 6
 N_HIST = 5
-HISTORIES = ("empty", "same-range", "different-range", "enqueued-in-range", "enqueued-out-of-range")
+HISTORIES = ("empty", "same-range", "different-range", "far-range", "enqueued-in-range", "enqueued-out-of-range")
 STEPS = ("0.1", "0.3", "0.25", "1", "7", "1e-3")
 INT_STEPS = (1, 2, 3, 7)
 MAX_FINITE = 8  # Grid / BruteForce only where the domain has <= 8 points
@@ -329,20 +329,25 @@ def _grid_values(d: Any, n: int = N_HIST) -> list:
     return out
 
 
-def shifted_dist(dom: Dom) -> Any:
+def shifted_dist(dom: Dom, far: bool = False) -> Any:
     """A distribution of the same kind for the same name with a DIFFERENT range: shifted up by half
     the width (log: multiplied by sqrt(high/low)); the shift of a stepped domain need not be a
-    multiple of the step, so the old observations may lie off the new grid."""
+    multiple of the step, so the old observations may lie off the new grid. far=True: shifted by a
+    thousand widths, so the old observations lie hundreds of kernel sigmas outside the new range."""
     if dom.kind == "I":
-        sh = max(1, (dom.top - dom.low) // 2)
+        sh = max(1, (dom.top - dom.low) // 2) if not far else max(1000, (dom.top - dom.low) * 1000)
         return IntDistribution(dom.low + sh, dom.top + sh, log=dom.log, step=dom.step)
     if dom.log:
         f = math.sqrt(dom.high / dom.low) if dom.high > dom.low else 2.0
         if dom.low * f == dom.low:
             f = 2.0
+        if far:
+            f = math.exp(min(400 * math.log(f), math.log(1e60)))
         return FloatDistribution(dom.low * f, dom.high * f, log=True)
     w = dom.top - dom.low
     sh = w / 2 if w > 0 else max(abs(dom.low), 1.0) / 2
+    if far:
+        sh *= 2000
     return FloatDistribution(dom.low + sh, dom.top + sh, step=dom.step)
 
 
@@ -378,12 +383,12 @@ def fixed_value(dom: Dom) -> Any:
 
 def apply_history(study: Any, dom: Dom, hist: str) -> Any:
     """Returns the enqueued value (or _MISSING: None is a legal categorical choice)."""
-    if hist in ("same-range", "different-range"):
+    if hist in ("same-range", "different-range", "far-range"):
         if dom.kind == "C":
             d = dom.dist()
             vals = [dom.choices[i % len(dom.choices)] for i in range(N_HIST)]
         else:
-            d = dom.dist() if hist == "same-range" else shifted_dist(dom)
+            d = dom.dist() if hist == "same-range" else shifted_dist(dom, far=(hist == "far-range"))
             vals = _grid_values(d)
         for i, v in enumerate(vals):
             study.add_trial(create_trial(state=TrialState.COMPLETE, params={NAME: v}, distributions={NAME: d},
@@ -443,6 +448,7 @@ EXPECTED_RAISES = {
     # BruteForceSampler documents that it cannot cope with a range that changes inside a study
     # (ValueError "search_space mismatch" / "param_name mismatch" from its tree, in suggest or in after_trial)
     ("BruteForce", "different-range", "ValueError", ""),
+    ("BruteForce", "far-range", "ValueError", ""),
     # BruteForceSampler.after_trial rebuilds the trial with create_trial(), which validates the out-of-range
     # enqueued value that Trial._suggest accepted: ValueError out of study.optimize (side observation, not C10)
     ("BruteForce", "enqueued-out-of-range", "ValueError", "The value "),
